@@ -321,6 +321,17 @@ func pathEscape(input string, mode pathEncoding) string {
 	}
 	return sb.String()
 }
+// pathNormalize re-escapes a raw path segment canonically. A segment with an
+// invalid escape sequence is returned unchanged (it will not match a literal,
+// and capturing it fails).
+func pathNormalize(segment string) string {
+	unescaped, err := pathUnescape(segment, pathEncodeSingle)
+	if err != nil {
+		return segment
+	}
+	return pathEscape(unescaped, pathEncodeSingle)
+}
+
 func validateHex(input string) error {
 	if len(input) < 3 || input[0] != '%' || !ishex(input[1]) || !ishex(input[2]) {
 		if len(input) > 3 {
